@@ -32,7 +32,7 @@ type Model struct {
 	Name   string
 	Gen    func(r *Rng, tier string, emit func(Case))
 	Impl   func(c Case) []int64
-	Shrink func(c Case) []Case // candidates strictly smaller than c (optional)
+	Shrink func(c Case) []Case              // candidates strictly smaller than c (optional)
 	Class  func(c Case, out []int64) string // histogram bucket for the evidence (optional)
 }
 
